@@ -224,6 +224,12 @@ func (n *Namespace) add(c *serverConn, auth json.RawMessage) (*serverSocket, err
 		return nil, err
 	}
 
+	// Do not admit a socket whose connection was closed while the middlewares were running:
+	// nothing would ever disconnect it again.
+	if c.closed.Load() {
+		return nil, fmt.Errorf("sio: connection was closed before the socket could be admitted")
+	}
+
 	return socket, n.doConnect(socket)
 }
 
